@@ -1,1 +1,1 @@
-from . import ci, im, mf, ti  # noqa: F401
+from . import ci, im, mf, ti, cd  # noqa: F401
